@@ -24,8 +24,8 @@ Numbers are exact rationals; what IEEE doubles do to `(90 - lat)/_dlat` is outsi
 namespace Srtm
 
 /-- `_tile_height`, `_tile_width` -/
-abbrev tileH : Nat := 6000
-abbrev tileW : Nat := 4800
+def tileH : Nat := 6000
+def tileW : Nat := 4800
 /-- `_dlat = 50.0 / _tile_height` -/
 def dlat : Rat := 50 / 6000
 /-- `_dlon = 40.0 / _tile_width` -/
